@@ -51,6 +51,8 @@ fn main() {
         "cells" => ops::cells::run(&mut out, &mut rng, thorough),
         "iloc" => ops::iloc::run(&mut out, &mut rng, thorough),
         "geom" => ops::geom::run(&mut out, &mut rng, thorough),
+        "clipperm" => ops::clipperm::run(&mut out, &mut rng, thorough),
+        "cycle" => ops::clipperm::run_cycle(&mut out, &mut rng, thorough),
         "addfar" => ops::addfar::run(&mut out, &mut rng, thorough),
         "routes" => ops::routes::run_routes(&mut out, &mut rng, thorough),
         "partial" => ops::routes::run_partial(&mut out, &mut rng, thorough),
